@@ -214,6 +214,13 @@ func (api *HTTP) handleGetMessages(w http.ResponseWriter, r *http.Request, sessi
 	var lastFlush time.Time
 	willFlush := false
 	msgschan := make(chan []*robust.Message)
+	// delivered is the id of the most recent message batch which was dealt
+	// with on this connection, initially the one the client resumes behind.
+	delivered := lastSeen.Id
+	// sessionEnd is the id of the most recent message at the time the
+	// session was found to be deleted (sessionGone).
+	sessionGone := false
+	var sessionEnd uint64
 
 	sessionId = strconv.FormatUint(session.Id, 10)
 	ctx, cancel := context.WithCancel(r.Context())
@@ -273,9 +280,24 @@ func (api *HTTP) handleGetMessages(w http.ResponseWriter, r *http.Request, sessi
 				}
 			}
 
+			if len(msgs) > 0 && msgs[0].Type != robust.Ping {
+				delivered = msgs[0].Id.Id
+			}
+
 			if _, err := api.ircServer().GetSession(session); err != nil {
-				// Session was deleted in the meanwhile, abort this request.
-				return
+				// Session was deleted in the meanwhile. The replies to the
+				// message which deleted it were added to the output before
+				// the session went away, so a client which lags behind
+				// still gets everything up to the most recent message (it
+				// cannot resume: the session is gone). Then, abort this
+				// request.
+				if !sessionGone {
+					sessionGone = true
+					sessionEnd = api.output().LastSeen().Id
+				}
+				if delivered >= sessionEnd {
+					return
+				}
 			}
 
 			if lastContact, partitioned := api.partitioned(); partitioned {
